@@ -107,7 +107,8 @@ type PFile struct {
 	Msgs    []string
 	Enums   []string
 	Imports []string // proto import paths
-	Uses    []string // full type names used as fields of message "<Base>Holder"
+	Uses    []string // full type names used as fields of the message Holder
+	Holder  string   // name of the message that uses them ("" = none)
 }
 
 func (f *PFile) Package() string { return joinStr(f.Dir, ".") }
